@@ -789,3 +789,34 @@ Proof.
   - intros x y. cbn [o_ds]. apply forallb_app.
   - intros x y. cbn [o_enc]. rewrite map_app. reflexivity.
 Qed.
+
+(* ------------------------------------------------------------------ streams reported as unblocked are processed one after the other *)
+Lemma unblock_app : forall fx O l1 l2 c evs,
+  unblock fx O c (l1 ++ l2) evs =
+  match unblock fx O c l1 evs with SVal e c' => unblock fx O c' l2 e | r => r end.
+Proof.
+  intros fx O. induction l1 as [|sid l1 IH]; intros l2 c evs; [reflexivity|].
+  cbn [app unblock]. destruct (find_stream sid (c_streams c)) as [s|]; [|reflexivity].
+  match goal with |- (match ?h with _ => _ end) = _ => destruct h end; try reflexivity.
+  match goal with |- (if ?b then _ else _) = _ => destruct b end; [|apply IH].
+  match goal with |- (match ?h with _ => _ end) = _ => destruct h end; try reflexivity. apply IH.
+Qed.
+
+(* blocked / resume on a concrete exchange (model of the patched code): a response whose HEADERS block has to wait for
+   the encoder stream, body and FIN arriving meanwhile, gives the events of the delivery that did not have to wait *)
+Definition o_wait : oracle :=
+  mkO (fun _ _ => DBlocked) (fun _ => DFailed) (fun _ _ => (true, None)) (fun _ => EUnblocked []) (fun _ => true).
+Definition o_arrived : oracle :=
+  mkO (fun _ _ => DHeaders 1) (fun _ => DHeaders 1) (fun _ _ => (true, None)) (fun _ => EUnblocked [0]) (fun _ => true).
+
+Definition events_all (l : list hout) : list atom :=
+  flat_map (fun o => match o with Events e => norm e | _ => [] end) l.
+
+Lemma blocked_resume_example :
+  events_all (run all_fixed (conn_init true true)
+     [(QStream 0 [1; 1; 0; 0; 2; 97] false, o_wait); (QStream 0 [98] true, o_wait); (QStream 7 [2; 1] false, o_arrived)])
+  = [AHeaders 0 None 1; AByte 0 None 97; AByte 0 None 98; AEnd 0] /\
+  events_all (run all_fixed (conn_init true true)
+     [(QStream 7 [2; 1] false, oracle1); (QStream 0 [1; 1; 0; 0; 2; 97; 98] true, oracle1)])
+  = [AHeaders 0 None 1; AByte 0 None 97; AByte 0 None 98; AEnd 0].
+Proof. split; vm_compute; reflexivity. Qed.
